@@ -91,7 +91,8 @@ func runConc(t *testing.T, sc Scenario) *core.Result {
 				mu.Lock()
 				r.done = w.Log.NextG()
 				mu.Unlock()
-				time.Sleep(time.Duration(cs.GapUS) * time.Microsecond)
+				// (ns jitter: wake-ups of different drivers never coincide, see DESIGN 2.2)
+				time.Sleep(time.Duration(cs.GapUS)*time.Microsecond + time.Duration(core.H(sc.Seed, "jr", uint64(k))%997))
 			}
 		})
 		w.Go("packets", func() {
@@ -100,7 +101,7 @@ func runConc(t *testing.T, sc Scenario) *core.Result {
 				pkt := &rtp.Packet{Header: rtp.Header{Version: 2, PayloadType: 96, SequenceNumber: uint16(100 + k), Timestamp: uint32(cs.TS0 + int64(k)*100), SSRC: 1}, Payload: []byte{1}}
 				rr.ProcessPacket2(pkt, now(), true) //nolint:errcheck
 				rr.Stats()
-				time.Sleep(time.Duration(cs.QGapUS) * time.Microsecond)
+				time.Sleep(time.Duration(cs.QGapUS)*time.Microsecond + time.Duration(core.H(sc.Seed, "jp", uint64(k))%991))
 			}
 		})
 		w.Go("queries", func() {
@@ -152,7 +153,7 @@ func runConc(t *testing.T, sc Scenario) *core.Result {
 					}
 					w.Probe("conc_queries_checked")
 				}
-				time.Sleep(time.Duration(cs.QGapUS) * time.Microsecond)
+				time.Sleep(time.Duration(cs.QGapUS)*time.Microsecond + time.Duration(core.H(sc.Seed, "jq", uint64(q))%983))
 			}
 		})
 		w.Go("closer", func() {
